@@ -11,7 +11,8 @@ Open Scope list_scope.
 
 Definition ref_facts : facts := mkFacts
   1 1 "." 1
-  [MEmpty "Scenario.Name"; MLess "Scenario.RunNumber" 1; MLess "Scenario.Reporting.ReportEveryNumberOfIterations" 1;
+  [MEmpty "Scenario.Name"; MLess "Scenario.RunNumber" 1; MGreater "Scenario.RunNumber" 9223372036854775807;
+   MLess "Scenario.Reporting.ReportEveryNumberOfIterations" 1;
    MUnspecified "Annealer.Type"; MEmpty "Model.Type"]
   ["CSV"; "JSON"; "EXCEL"] ["Summary"; "Detail"] ["Kirkpatrick"; "Suppapitnarm"; "AveragedSuppapitnarm"]
   ["Sequential"; "Concurrent"] ["NativeLibrary"; "BareBones"] ["RawMessage"; "JSON"; "NameValuePair"]
@@ -50,12 +51,13 @@ Definition ref_d0 : dataset :=
     (fun _ _ => mkCtx (1 # 5) (9 # 1) (7 # 2) (11 # 3) 0 0) None.
 
 (* the world the witnesses live in: "data.csv" is readable and is [ref_d0]; "broken.csv" is readable, loads, but lacks a table;
-   "notes.txt" is readable and is no data set; the output path "out" is usable, "file" is not; no Excel *)
+   "notes.txt" is readable and is no data set; the output path "out" is usable, "file" is an existing file; the directory "nowhere"
+   does not exist; no Excel *)
 Definition ref_env : env := mkEnv
   (fun p => existsb (String.eqb p) ["data.csv"; "broken.csv"; "notes.txt"])
   (fun p => if p =? "data.csv" then DataOk ref_d0 else if p =? "broken.csv" then DataMalformed else DataUnloadable)
-  (fun p => negb (p =? "file"))
-  (fun p => negb (p =? "nowhere/prof"))
+  (fun p => p =? "file") (fun p => negb (p =? "file"))
+  (fun p => negb (p =? "nowhere/prof")) (fun p => negb (p =? "nowhere/prof"))
   false
   (fun _ => true).
 
@@ -67,6 +69,16 @@ Definition doc (name : string) (annealer : string) (aparams : pmap) (model : str
 Definition with_runs (z : Z) (c : config) : config :=
   mkConfig (c_decodes c) (c_unknown_keys c) (c_name c) (Value z) (c_max_concurrent c) (c_output_path c) (c_output_type c)
            (c_output_level c) (c_cpu_profile c) (c_report_every c) (c_check_invariant c) (c_logger_type c) (c_formatter c)
+           (c_log_dests c) (c_annealer_type c) (c_event_notifier c) (c_annealer_params c) (c_model_type c) (c_model_params c).
+
+Definition with_concurrent (z : Z) (c : config) : config :=
+  mkConfig (c_decodes c) (c_unknown_keys c) (c_name c) (c_run_number c) (Value z) (c_output_path c) (c_output_type c)
+           (c_output_level c) (c_cpu_profile c) (c_report_every c) (c_check_invariant c) (c_logger_type c) (c_formatter c)
+           (c_log_dests c) (c_annealer_type c) (c_event_notifier c) (c_annealer_params c) (c_model_type c) (c_model_params c).
+
+Definition with_profile (path : string) (c : config) : config :=
+  mkConfig (c_decodes c) (c_unknown_keys c) (c_name c) (c_run_number c) (c_max_concurrent c) (c_output_path c) (c_output_type c)
+           (c_output_level c) (Value path) (c_report_every c) (c_check_invariant c) (c_logger_type c) (c_formatter c)
            (c_log_dests c) (c_annealer_type c) (c_event_notifier c) (c_annealer_params c) (c_model_type c) (c_model_params c).
 
 Definition with_output (path : string) (otype : field string) (c : config) : config :=
